@@ -211,7 +211,24 @@ def scn_wire(params):
             argv += [scen.SERVER_IP, sim.domain]
             envpw = None                 # unset: an empty IODINE_PASS would be taken as the (empty) password
             stdin_data = pw + (b"\n" if params["pw_via"] == "stdin-nl" else b"") + (b"second line\n" if params["pw_via"] == "stdin-nl" and params["idx"] % 2 else b"")
-        c = k.spawn("cli0", "client", argv, ["10.53.1.1"], env={"IODINE_PASS": envpw}, san_env=sim.env, stdin_data=stdin_data)
+        tty_keys = None
+        if params.get("pw_via") == "tty":
+            # typed at the prompt on a terminal, with corrections: a wrong character rubbed out with DEL, or the whole line
+            # killed with ^U and typed again; what counts is the line as edited
+            stdin_data = None
+            r2 = random.Random(params["seed"] ^ 0x77)
+            keys = bytearray()
+            how = params.get("tty_edit", 0)
+            if how == 2:
+                keys += bytes(r2.randint(97, 122) for _ in range(r2.randint(1, 6))) + b"\x15"      # junk, then ^U
+            for keych in pw:
+                if how in (1, 3) and r2.random() < 0.25:
+                    keys += bytes([r2.randint(97, 122)]) + b"\x7f"                                     # typo, DEL
+                keys.append(keych)
+            keys += b"\n"
+            tty_keys = bytes(keys)
+        c = k.spawn("cli0", "client", argv, ["10.53.1.1"], env={"IODINE_PASS": envpw}, san_env=sim.env, stdin_data=stdin_data,
+                    stdin_tty_keys=tty_keys)
         sim.run_until(lambda: sim.client_in_tunnel(c) or not c.alive(), 60 * US)
         k.run(k.now + 3 * US)
         wit = {"seed": seed, "password": pw.hex(), "password_len": len(pw), "challenge": "0x%08x" % ch, "params": params}
@@ -382,7 +399,10 @@ def wire_params(ctx, rng):
                       "earlier_P_hex": ([bytes(rng.randint(33, 126) for _ in range(rng.choice([12, 32]))).hex()] if rng.random() < 0.15 else []),
                       "raw": i % 2 == 0, "drop_raw": rng.choice([0, 0, 1, 2, 3]), "reply": rng.choice(["good", "good", "dns-hash", "plus1", "bitflip"]), "flip": rng.randrange(128),
                       "qtype": rng.choice(["NULL", "TXT", "CNAME", "MX"]),
-                      "pw_via": (rng.choice(["stdin-nl", "stdin-nonl", "stdin-nonl"]) if style == 0 and rng.random() < 0.4 else "P")})
+                      "pw_via": (rng.choice(["stdin-nl", "stdin-nonl", "stdin-nonl"]) if style == 0 and rng.random() < 0.4 else "P"),
+                      "tty_edit": i % 4})
+        if style == 0 and i % 16 == 5 and b" " not in pw and b"\t" not in pw:
+            plist[-1]["pw_via"] = "tty"
     return plist
 
 
